@@ -12,6 +12,7 @@ import Frugal.Props.Inst.F_skeleton_decoder
 import Frugal.Props.Inst.F_skeleton_encoder
 import Frugal.Props.Inst.F_skeleton_descTable
 import Frugal.Props.Inst.F_skeleton_resolver
+import Frugal.Tags
 namespace Frugal.C11
 open Frugal
 /-- retained unknown-field bytes are re-emitted verbatim inside their struct, before STOP -/
@@ -210,5 +211,19 @@ theorem descriptor_tables_built_as_modelled : Generated.facts.descTableSkeleton 
     structure of the code (regenerated fingerprint; C12 / C13 prove what the model does) -/
 theorem schema_read_from_tags_as_modelled : Generated.facts.resolverSkeleton = Skeleton.resolver :=
   Instances.skeleton_resolver
+
+/-- holder discovery: a struct has the holder exactly when one of *its own* fields is named
+    `_unknownFields` and has type `[]byte`; an embedded struct that declares one does not give its
+    holder to the struct embedding it (D14: the code used to look among promoted fields too, at the
+    wrong offset), nor does a field of that name with another type -/
+theorem holder_is_an_own_field (gs : GoStruct) (sd : SDesc) (h : resolveStruct gs = some sd) :
+    sd.hasHolder = gs.fields.any fun gf => gf.name == "_unknownFields" &&
+      (match gf.ty with
+       | .slice (.prim .uint8 _) => true
+       | _ => false) := by
+  unfold resolveStruct at h
+  split at h
+  · cases h
+  · cases h; rfl
 
 end Frugal.C11
